@@ -134,6 +134,12 @@ struct carquet_column_reader {
     /* Retained page data for BYTE_ARRAY value pointers */
     uint8_t* page_data_for_values;
 
+    /* Page buffers of earlier pages that byte-array values returned by the
+     * current read call still point into; released at the next read call */
+    uint8_t** retired_page_data;
+    size_t retired_count;
+    size_t retired_capacity;
+
     /* Current page state for partial reads */
     bool page_loaded;           /* Is a page currently loaded? */
     int32_t page_num_values;    /* Total values in current page */
@@ -166,6 +172,11 @@ carquet_schema_t* build_schema(
     carquet_arena_t* arena,
     const parquet_file_metadata_t* metadata,
     carquet_error_t* error);
+
+/**
+ * Release page buffers kept alive for byte-array values of the previous read call.
+ */
+void carquet_column_reader_release_retired(carquet_column_reader_t* reader);
 
 /**
  * Open file with memory mapping.
